@@ -8,6 +8,7 @@ import (
 	"net/http"
 	"os"
 	"path/filepath"
+	"strings"
 	"time"
 
 	"vgwsim/gw"
@@ -59,7 +60,9 @@ var runCounter int
 // New creates the deployment. The simulator is installed process-wide.
 func New(seed uint64, cfg gw.Config) (*Env, error) {
 	runCounter++
-	base := filepath.Join(BaseDir, fmt.Sprintf("vgwsim-%d", os.Getpid()), fmt.Sprintf("r%d", runCounter))
+	// fixed-width names: the scratch path can end up inside requests (absolute-path attack values), and neither
+	// the length of a request nor anything else may depend on the process id or on how many runs came before
+	base := filepath.Join(BaseDir, fmt.Sprintf("vgwsim-%08d", os.Getpid()), fmt.Sprintf("r%07d", runCounter))
 	os.RemoveAll(base)
 	dirs, err := gw.MakeDirs(base)
 	if err != nil {
@@ -226,7 +229,7 @@ func (e *Env) RoundTrip(g int, sg *s3c.Signed, co *ConnOpts) *Result {
 		e.lastStart = res.Inv
 		e.Requests++
 		e.Routed[g]++
-		e.S.Tracef("t%d REQ gw%d %s %s len=%d", t.ID, g, sg.Method, sg.Target, len(wire))
+		e.S.Tracef("t%d REQ gw%d %s %s len=%d", t.ID, g, sg.Method, e.canonTarget(sg.Target), len(wire))
 		res.Serve = gwi.Serve(c)
 		res.Resp = s3c.ParseResp(c.Resp, sg.Method)
 		res.Splits = c.SplitInside
@@ -315,4 +318,16 @@ func (c *Client) Sign(r *s3c.Req) *s3c.Signed {
 		r.Region = gw.Region
 	}
 	return r.Sign()
+}
+
+// canonTarget removes the run's scratch directory (plain and percent-encoded) from a request target for the trace.
+func (e *Env) canonTarget(t string) string {
+	b := e.Dirs.Base
+	if !strings.Contains(t, "vgwsim-") {
+		return t
+	}
+	t = strings.ReplaceAll(t, b, "$B")
+	t = strings.ReplaceAll(t, strings.ReplaceAll(b, "/", "%2F"), "$B")
+	t = strings.ReplaceAll(t, strings.ReplaceAll(b, "/", "%252F"), "$B")
+	return t
 }
